@@ -539,10 +539,13 @@ class QuarterSplineRing(SplineRound):
 
         # If a circular shape use arc instead of spline
         if self.side_1 <= constants.TOL and self.side_2 <= constants.TOL and abs(self.r_1 - self.r_2) < constants.TOL:
-            self.shell[0].add_edge(1, Origin(self.center))
-            self.shell[1].add_edge(1, Origin(self.center))
             self.shell[0].add_edge(3, Origin(self.center))
             self.shell[1].add_edge(3, Origin(self.center))
+
+            # the outer curve is a circle only when both widths are the same
+            if abs(self.r_1_outer - self.r_2_outer) < constants.TOL:
+                self.shell[0].add_edge(1, Origin(self.center))
+                self.shell[1].add_edge(1, Origin(self.center))
 
 
 class HalfSplineRing(QuarterSplineRing):
